@@ -89,6 +89,82 @@ def rotation_publish_order(ctx, prog, eff, rid):
              else '%d switch site(s); every exit after them is Ok' % len(sw))
 
 
+def policy_mapping(ctx, prog, rid):
+    """C01.R13: configuration value → engine fsync policy, edge by edge."""
+    fam = prog.family(ctx.body(rid, 'kyrodb_server::main'))
+    site = None
+    for b in fam:
+        o = flow.Origin(b)
+        for i, blk in enumerate(b.blocks):
+            if blk['t']['k'] == 'switch' and i in b.live_blocks():
+                preds = flow.switch_edge_predicates(b, i, o)
+                if any(re.match(r'^variant\(.*→KyroDbConfig\.persistence→PersistenceConfig\.fsync_policy\) = \w+$', p) for _, p in preds):
+                    site = (b, i, preds, o)
+    if site is None:
+        ctx.missing(rid, 'main: switch on config.persistence.fsync_policy')
+        return
+    b, sw, preds, o = site
+    cfg_adt = prog.adts.get('kyrodb_engine::config::FsyncPolicy')
+    variants = sorted(v['name'] for v in cfg_adt['variants']) if cfg_adt else []
+    arms = {}
+    for tg, p in preds:
+        m_ = re.match(r'^variant\(.*PersistenceConfig\.fsync_policy\) = (\w+)$', p)
+        if m_:
+            arms[m_.group(1)] = tg
+    # a wildcard arm that can only stand for ONE variant is that variant's arm (`_ => Always` after None and DataOnly)
+    rest = [v for v in variants if v not in arms]
+    els = b.blocks[sw]['t']['else']
+    if len(rest) == 1 and b.blocks[els]['t']['k'] != 'unreachable' and els not in arms.values():
+        arms[rest[0]] = els
+    ctx.inst(rid, 'kyrodb_server::main', 'every configured policy is mapped explicitly', bool(variants) and sorted(arms) == variants,
+             'config::FsyncPolicy variants %s; arms of the mapping: %s' % (variants, sorted(arms)))
+    # where the mapping ends: the engine configuration that receives the policy
+    stop = set()
+    for i, blk in enumerate(b.blocks):
+        for st in blk['s']:
+            rv = st.get('rv')
+            if rv and rv['k'] == 'agg' and rv.get('adt', '').endswith('TieredEngineConfig') and 'fsync_policy' in (rv.get('fields') or []):
+                stop.add(i)
+    if not stop:
+        ctx.missing(rid, 'main: TieredEngineConfig{fsync_policy, ..} built in the function that maps the policy')
+        return
+
+    def built(tg):
+        """engine policies constructed between the edge and the engine configuration: (variant, operand origins, conditional?, loc)"""
+        others = set(arms.values()) - {tg}
+        region = b.reach([tg], avoid_blocks=stop | others) | {tg}
+        out = []
+        for i in sorted(region):
+            for st in b.blocks[i]['s']:
+                rv = st.get('rv')
+                if rv and rv['k'] == 'agg' and rv.get('ak') == 'adt' and re.search(r'persistence::FsyncPolicy$', rv.get('adt', '')):
+                    # unconditional: the engine configuration cannot be reached from the edge without this construction
+                    cond = bool(stop & (b.reach([tg], avoid_blocks=[i]) | {tg})) and i != tg
+                    out.append((rv.get('variant'), [flow.render(o.of_operand(x)) for x in rv['ops']], cond, st.get('loc', b.loc_of(i))))
+        return out
+    WANT = {'Full': ('Always', None), 'DataOnly': ('Periodic', r'→KyroDbConfig\.persistence→PersistenceConfig\.wal_flush_interval_ms$')}
+    for cv, (ev, op_rx) in WANT.items():
+        if cv not in arms:
+            ctx.missing(rid, 'main: arm %s of the fsync policy mapping' % cv)
+            continue
+        bs = built(arms[cv])
+        bad = []
+        if not bs:
+            bad.append('no engine policy is built on this edge')
+        for v, ops, cond, loc in bs:
+            if v != ev:
+                bad.append('FsyncPolicy::%s%s is built at %s' % (v, ('(%s)' % ', '.join(x[-60:] for x in ops)) if ops else '', loc))
+            elif cond:
+                bad.append('FsyncPolicy::%s at %s is built only under a further condition' % (v, loc))
+            elif op_rx and not (len(ops) == 1 and re.search(op_rx, ops[0])):
+                bad.append('FsyncPolicy::%s at %s carries %s, not the configured interval' % (v, loc, [x[-80:] for x in ops]))
+        why = {'Full': 'a write acknowledged under the fsync-every-write setting can then be lost by a power failure before the next periodic sync',
+               'DataOnly': 'the flush interval the operator configured is not the one the writer observes'}[cv]
+        ctx.inst(rid, 'kyrodb_server::main', 'configured %s ⇒ engine policy %s' % ({'Full': 'full', 'DataOnly': 'data_only'}[cv], ev), not bad,
+                 ('on the edge fsync_policy = %s: %s — %s' % (cv, '; '.join(bad), why)) if bad else
+                 'on the edge fsync_policy = %s the only policy built is FsyncPolicy::%s%s, unconditionally' % (cv, ev, ('(%s)' % bs[0][1][0][-70:]) if bs[0][1] else ''))
+
+
 def run(ctx, prog):
     ctx.not_decided = ['what a given crash state contains; torn-write handling; replay arithmetic',
                        'that the file system honours fsync / rename atomicity']
@@ -566,4 +642,10 @@ def run(ctx, prog):
                         'skipped as "covered" at the next start-up')
     n12 = _c02.seq_accounting(ctx, prog, 'C01.R12')
     ctx.floor('C01.R12', 'next_wal_seq.fetch_add sites', n12, 5, 'insert ×2, delete, update_metadata, batch_delete')
+    # ------------------------------------------------------------------ R13 the configured policy is the policy that runs
+    ctx.rule('C01.R13', 'the configured fsync policy is the one the log writer runs (R2 decides what each engine policy does; this decides which one a configuration value '
+                        'becomes): in the server\'s main the switch on persistence.fsync_policy handles every variant explicitly; on the edge `full` (fsync every write) the '
+                        'only engine policy built is FsyncPolicy::Always, unconditionally; on the edge `data_only` the only one is FsyncPolicy::Periodic carrying the '
+                        'configured wal_flush_interval_ms')
+    policy_mapping(ctx, prog, 'C01.R13')
     ctx.stat('functions_analysed', len(set(i['key'].split(' | ')[1] for i in ctx.instances)))
